@@ -161,6 +161,10 @@ def specCheck (line : String) : String :=
       match parseCond segs with
       | some r => specCond r ans
       | none => "fail bad-request"
+    | (kind :: _) :: _ =>
+      if kind.startsWith "condrun-unexpected" then
+        s!"fail conditional-run-did-not-complete a valid circuit with a conditional gate ended in {ans.take 60}"
+      else "fail bad-request"
     | _ => "fail bad-request"
   | _ => "fail bad-line"
 
